@@ -151,10 +151,14 @@ C01_Obs(obs) ==
 
 ClusterIdx(S, name) == {i \in DOMAIN S.clusters : S.clusters[i].name = name}
 HasCluster(S, name) == ClusterIdx(S, name) # {}
-ClusterOf(S, name) == S.clusters[CHOOSE i \in ClusterIdx(S, name) : TRUE]
+\* total on purpose: a store left half-updated by a panic may tag proxies with a cluster that does not exist; the monitors
+\* must then still be evaluable (an evaluation error would turn a verdict into a tool error)
+NoSuchCluster(name) == [name |-> name, epoch |-> 0, chunks |-> <<>>]
+ClusterOf(S, name) == IF ClusterIdx(S, name) = {} THEN NoSuchCluster(name) ELSE S.clusters[CHOOSE i \in ClusterIdx(S, name) : TRUE]
 ProxyIdx(S, a) == {i \in DOMAIN S.proxies : S.proxies[i].addr = a}
 Registered(S) == {S.proxies[i].addr : i \in DOMAIN S.proxies}
-ProxyRec(S, a) == S.proxies[CHOOSE i \in ProxyIdx(S, a) : TRUE]
+NoSuchProxy(a) == [addr |-> a, host |-> "", cluster |-> ""]
+ProxyRec(S, a) == IF ProxyIdx(S, a) = {} THEN NoSuchProxy(a) ELSE S.proxies[CHOOSE i \in ProxyIdx(S, a) : TRUE]
 ProxyCluster(S, a) == IF ProxyIdx(S, a) = {} THEN "" ELSE ProxyRec(S, a).cluster
 FailedSet(S) == Range(S.failed)
 ReportedSet(S) == {S.failures[i].addr : i \in DOMAIN S.failures}
@@ -230,8 +234,10 @@ Touching(V, a) == {<<SR(V, p).rl, SR(V, p).tag, SR(V, p).meta.epoch>> :
                                               /\ (SR(V, q).meta.sp = a \/ SR(V, q).meta.dp = a)}}
 
 PartnerOf(c, a) ==
-    LET i == CHOOSE i \in DOMAIN c.chunks : a \in {c.chunks[i].px[1], c.chunks[i].px[2]}
-    IN IF c.chunks[i].px[1] = a THEN c.chunks[i].px[2] ELSE c.chunks[i].px[1]
+    LET is == {i \in DOMAIN c.chunks : a \in {c.chunks[i].px[1], c.chunks[i].px[2]}} IN
+    IF is = {} THEN ""
+    ELSE LET i == CHOOSE i \in is : TRUE
+         IN IF c.chunks[i].px[1] = a THEN c.chunks[i].px[2] ELSE c.chunks[i].px[1]
 
 \* Spre/Vpre: state and unlimited cluster view before; Spost/Vpost after failing `a`
 C06_Failover(Spre, Vpre, Spost, Vpost, a) ==
